@@ -131,7 +131,7 @@ class Session:
         except Exception as e:  # noqa: BLE001
             return ("err", e)
         try:
-            return ("ok", self.R.abs(u), u)
+            return ("ok", self.R.abs_un(u), u)
         except Unrepresentable:
             return ("unrep", u)
 
